@@ -81,6 +81,18 @@ CHECKS = {
         "allocator invariants and progress walk hold; malformed specs raise SystemSetupError.",
         "Trusted: the reference (15 lines) and sched_common invariants. End-to-end racing of filtered schedules is part of the C01 simulation.",
     ),
+    "C20": (
+        "exploration",
+        "bounded-exhaustive enumeration of pairs of stored race results through the real ComparisonReporter (plain, rich, files) against "
+        "a reference table, plus self-comparison and swap relations on every pair",
+        "DESIGN.md §4 C20",
+        "For 17 metric families every presence pattern x every ordered pair of a 9-value alphabet (zero, negative, sub-threshold and "
+        "sub-percent differences), alone and on a full background, and every ordered pair of task lists (<= 2 of 3 tasks, one named like "
+        "another's operation) x value pairs x percentile-key subsets: rows present iff the metric is in both, cells = converted values, "
+        "diff = contender - baseline with sign/5 places, relative diff, colour by direction, neutral when printing as zero, self-compare "
+        "neutral, swap flips, csv/markdown file = console text without colour codes.",
+        "Trusted: the reference table (labels, unit factors; 120 lines). Disk-usage-per-field rows are not generated.",
+    ),
 }
 
 NOT_YET = {}
